@@ -6,6 +6,8 @@ from .spec import LOADS
 
 INTERNAL = ["RLoss", "VLoss", "Converter", "LinReg", "PSwitch", "Rectifier"]
 PHASE_POOL = ["sleep", "idle", "tx", "rx", "move", "boot"]
+# names that contain / prefix / differ only in case or blanks from one another: still distinct phases
+PHASE_POOL_OVERLAP = ["sleep", "deep_sleep", "tx", "tx_retry", "p1", "p10", "a", "ab", "Idle", "idle", "idle 2", "1", "11"]
 REALISTIC = [
     "Buck 1.8V", "-12V (x)/y#1", "3V3 LDO", "5V0_USB", "MCU core", "RF+PA", "Vbatt Li-Ion", "Sensor #2",
     "1.2 V rail", "LED (red)", "Fan/12V", "DDR_VTT", "Load switch A", "OR-ing mux", "Bridge rect.", "R_sense",
@@ -371,6 +373,12 @@ class _Gen:
                 vis = [sig(m * 0.5), sig(m * 1.5)]
         else:
             vis = [sig(m)]
+        if two_d and r.random() < 0.12:
+            # whole-number axes typed as Python ints (as a TOML / JSON file delivers them); queries fall between them
+            ivis = sorted(set(max(1, int(round(m * f))) for f in (0.5, 1.0, 2.0, 3.0)[: len(vis)]))
+            if len(ivis) >= 2:
+                vis = ivis
+                ios = [0, 1, 2, 5][: max(2, len(ios) - 1)] if r.random() < 0.5 else [1, 2, 3, 4, 6][: max(2, len(ios))]
         if two_d and not well_conditioned(ios, vis):
             two_d, vis = False, [sig(m)]  # 2-D tables are only generated inside C10's well-conditioned class
         general = two_d and r.random() < o["general2d"]
@@ -416,7 +424,7 @@ class _Gen:
         self.sys_phases = {}
         if r.random() >= o["phases"]:
             return
-        names = r.sample(PHASE_POOL, r.randint(2, 5))
+        names = r.sample(PHASE_POOL_OVERLAP if r.random() < 0.25 else PHASE_POOL, r.randint(2, 5))
         for p in names:
             d = lu(r, 1e-3, 1e5)
             self.sys_phases[p] = int(d) + 1 if r.random() < 0.3 else d
@@ -426,7 +434,8 @@ class _Gen:
                 continue
             sub = [p for p in names if r.random() < 0.6]
             if r.random() < 0.15:
-                sub.append("ghost")  # a phase the system does not have
+                # a phase the system does not have (possibly a fragment / extension of one it has)
+                sub.append(r.choice(["ghost", names[0][:-1] or "g", names[-1] + "2"]))
             if k in LOADS:
                 conf = {}
                 for p in sub:
